@@ -96,11 +96,16 @@ func c08configs(tier string) []c08cfg {
 			c08cfg{name: "get|get|get free=[126,127]", proto: proto, free: []int{126, 127}, progs: [][]c08op{{G}, {G}, {G}}, limit: 400000},
 		)
 	}
+	// every exploration is bounded: a change to the allocator that adds atomic steps (or a retry loop) multiplies the
+	// number of interleavings, and the check has to end; an exploration cut short is reported as incomplete
+	for i := range out {
+		if out[i].limit == 0 {
+			out[i].limit = 1000000
+		}
+	}
 	if tier == "thorough" {
 		for i := range out {
-			if out[i].limit > 0 {
-				out[i].limit = 6000000
-			}
+			out[i].limit = 6000000
 		}
 	}
 	return out
